@@ -58,6 +58,46 @@ func literalSlice(v ssa.Value) ([]string, bool) {
 			if cv, ok := val.(*ssa.Convert); ok {
 				val = cv.X
 			}
+			// an element written as a byte literal ({'/', '*'}): the same bytes as []byte("/*")
+			if sl, isSl := val.(*ssa.Slice); isSl && sl.Low == nil && sl.High == nil {
+				if inner, isAlloc := sl.X.(*ssa.Alloc); isAlloc {
+					bs := map[int64]byte{}
+					top, good := int64(-1), true
+					for _, r3 := range *inner.Referrers() {
+						ia2, ok := r3.(*ssa.IndexAddr)
+						if !ok {
+							continue
+						}
+						k, isK := core.ConstInt(ia2.Index)
+						for _, r4 := range *ia2.Referrers() {
+							if st2, ok := r4.(*ssa.Store); ok {
+								b, isB := core.ConstInt(st2.Val)
+								if !isK || !isB {
+									good = false
+									continue
+								}
+								bs[k] = byte(b)
+								if k > top {
+									top = k
+								}
+							}
+						}
+					}
+					if n := arrayLen(inner); good && n >= 0 {
+						buf := make([]byte, n)
+						for k, b := range bs {
+							if int(k) < n {
+								buf[k] = b
+							}
+						}
+						vals[i] = string(buf)
+						if i > max {
+							max = i
+						}
+						continue
+					}
+				}
+			}
 			c, ok := val.(*ssa.Const)
 			if !ok || c.Value == nil {
 				okAll = false
@@ -293,12 +333,37 @@ func runC17(c *Ctx) {
 		okScan, why := false, "firstMatch does not test the marks against data[i:] for a scan position i"
 		core.EachInstr(fm, func(in ssa.Instruction) {
 			call, ok := in.(*ssa.Call)
-			if !ok || call.Call.StaticCallee() == nil || core.FullName(call.Call.StaticCallee()) != "bytes.HasPrefix" {
+			if !ok || call.Call.StaticCallee() == nil {
+				return
+			}
+			name := core.FullName(call.Call.StaticCallee())
+			if name != "bytes.HasPrefix" && name != "bytes.Equal" {
 				return
 			}
 			sl, ok := core.StripConv(call.Call.Args[0]).(*ssa.Slice)
-			if !ok || sl.Low == nil || sl.High != nil || sl.X != ssa.Value(fm.Params[0]) {
+			if !ok || sl.Low == nil || sl.X != ssa.Value(fm.Params[0]) {
 				return
+			}
+			// bytes.HasPrefix(data[i:], m), or the same test written as bytes.Equal(data[i:i+len(m)], m)
+			if name == "bytes.HasPrefix" && sl.High != nil {
+				return
+			}
+			if name == "bytes.Equal" {
+				hi, isAdd := core.StripConv(sl.High).(*ssa.BinOp)
+				if sl.High == nil || !isAdd || hi.Op != token.ADD {
+					return
+				}
+				lenOfMark := func(v ssa.Value) bool {
+					c, isCall := core.StripConv(v).(*ssa.Call)
+					if !isCall {
+						return false
+					}
+					b, isB := c.Call.Value.(*ssa.Builtin)
+					return isB && b.Name() == "len" && core.StripConv(c.Call.Args[0]) == core.StripConv(call.Call.Args[1])
+				}
+				if !((hi.X == sl.Low && lenOfMark(hi.Y)) || (hi.Y == sl.Low && lenOfMark(hi.X))) {
+					return
+				}
 			}
 			// the position: a range index over data (starts at 0, step 1) or a counter phi(0, i+1)
 			idx := sl.Low
@@ -514,115 +579,124 @@ func checkSplit(c *Ctx, split *ssa.Function) {
 				"'need more data' (0, nil, nil) can be answered at end of input with data pending: the rest of the document would be silently dropped", nil)
 			continue
 		}
-		// token emitting return
-		sl, ok := tok.(*ssa.Slice)
-		if !ok || core.StripConv(sl.X) != ssa.Value(data) || sl.Low != nil {
-			R.Fail("C17.token", key+"|token", P.InstrPos(r), "the emitted token is not a prefix of the scanned data", nil)
-			continue
-		}
-		if sl.High == nil {
-			// whole data at EOF with no marker
-			lenOK := core.Path(adv) == "len(data)"
-			eof := false
-			for _, g := range core.Guards(r.Block()) {
-				a, _ := core.AtomOf(g)
-				if a.LV == ssa.Value(atEOF) && a.Op == "is" {
-					eof = true
-				}
+		// token emitting return; a single merged return selects the token by a phi: each of its cases is judged with
+		// the atoms of its edge
+		tokCases := core.ValueCases(tok, r.Block())
+		baseKey := key
+		for ci, tc := range tokCases {
+			key := baseKey
+			if len(tokCases) > 1 {
+				key = fmt.Sprintf("%s.%d", baseKey, ci+1)
 			}
-			R.Check(lenOK && eof, "C17.token", key+"|passthrough", P.InstrPos(r),
-				"marker-free data passes through unchanged, and only at end of input (a marker may straddle a read boundary)",
-				fmt.Sprintf("the pass-through return is wrong (consumes exactly what it emits: %v, only at end of input: %v): a comment marker split across two reads would be emitted as data", lenOK, eof), nil)
-			continue
-		}
-		var terms []ssa.Value
-		addTerms(adv, &terms)
-		var names []string
-		nPos, nStart, nEnd, nOther := 0, 0, 0, 0
-		for _, t := range terms {
-			p := core.Path(t)
-			names = append(names, p)
-			switch {
-			case t == pos:
-				nPos++
-			case p == "len(startMatches[*])":
-				nStart++
-			case p == "len(endMatches[*])":
-				nEnd++
-			default:
-				nOther++
-			}
-		}
-		formula := nPos == 1 && nStart == 1 && nEnd == 1 && nOther == 1
-		// the remaining term ("extra") is the offset of the end mark in the rest, or - at the end of input without an end
-		// mark - len(rest) - len(end), so that adding len(end) again consumes exactly the rest
-		extraOK, extraWhy := true, ""
-		for _, t := range terms {
-			pth := core.Path(t)
-			if t == pos || pth == "len(startMatches[*])" || pth == "len(endMatches[*])" {
+			caseAtoms := tc.Atoms
+			sl, ok := tc.Val.(*ssa.Slice)
+			if !ok || core.StripConv(sl.X) != ssa.Value(data) || sl.Low != nil {
+				R.Fail("C17.token", key+"|token", P.InstrPos(r), "the emitted token is not a prefix of the scanned data", nil)
 				continue
 			}
-			var edges []ssa.Value
-			if phi, isPhi := t.(*ssa.Phi); isPhi {
-				edges = phi.Edges
-			} else {
-				edges = []ssa.Value{t}
-			}
-			for _, e := range edges {
-				switch x := core.StripConv(e).(type) {
-				case *ssa.Call:
-				case *ssa.BinOp:
-					if x.Op != token.SUB || core.Path(x.Y) != "len(endMatches[*])" {
-						extraOK = false
-						extraWhy = "at the end of input the missing end mark is accounted with " + core.Path(x.Y) + " instead of len(endMatches[*])"
+			if sl.High == nil {
+				// whole data at EOF with no marker
+				lenOK := core.Path(adv) == "len(data)"
+				eof := false
+				for _, g := range core.Guards(r.Block()) {
+					a, _ := core.AtomOf(g)
+					if a.LV == ssa.Value(atEOF) && a.Op == "is" {
+						eof = true
 					}
+				}
+				R.Check(lenOK && eof, "C17.token", key+"|passthrough", P.InstrPos(r),
+					"marker-free data passes through unchanged, and only at end of input (a marker may straddle a read boundary)",
+					fmt.Sprintf("the pass-through return is wrong (consumes exactly what it emits: %v, only at end of input: %v): a comment marker split across two reads would be emitted as data", lenOK, eof), nil)
+				continue
+			}
+			var terms []ssa.Value
+			addTerms(adv, &terms)
+			var names []string
+			nPos, nStart, nEnd, nOther := 0, 0, 0, 0
+			for _, t := range terms {
+				p := core.Path(t)
+				names = append(names, p)
+				switch {
+				case t == pos:
+					nPos++
+				case p == "len(startMatches[*])":
+					nStart++
+				case p == "len(endMatches[*])":
+					nEnd++
 				default:
-					extraOK = false
-					extraWhy = "the offset term is neither a search result nor len(rest) - len(end)"
+					nOther++
 				}
 			}
-			// "the region runs to the end of the data" is only right when no more data can come: while the input
-			// is still open the end mark may simply not have arrived yet
-			for _, vc := range core.ValueCases(t, r.Block()) {
-				if bo, isB := core.StripConv(vc.Val).(*ssa.BinOp); isB && bo.Op == token.SUB {
-					atEnd := false
-					for _, a := range vc.Atoms {
-						if a.LV == ssa.Value(atEOF) && a.Op == "is" {
-							atEnd = true
+			formula := nPos == 1 && nStart == 1 && nEnd == 1 && nOther == 1
+			// the remaining term ("extra") is the offset of the end mark in the rest, or - at the end of input without an end
+			// mark - len(rest) - len(end), so that adding len(end) again consumes exactly the rest
+			extraOK, extraWhy := true, ""
+			for _, t := range terms {
+				pth := core.Path(t)
+				if t == pos || pth == "len(startMatches[*])" || pth == "len(endMatches[*])" {
+					continue
+				}
+				var edges []ssa.Value
+				if phi, isPhi := t.(*ssa.Phi); isPhi {
+					edges = phi.Edges
+				} else {
+					edges = []ssa.Value{t}
+				}
+				for _, e := range edges {
+					switch x := core.StripConv(e).(type) {
+					case *ssa.Call:
+					case *ssa.BinOp:
+						if x.Op != token.SUB || core.Path(x.Y) != "len(endMatches[*])" {
+							extraOK = false
+							extraWhy = "at the end of input the missing end mark is accounted with " + core.Path(x.Y) + " instead of len(endMatches[*])"
+						}
+					default:
+						extraOK = false
+						extraWhy = "the offset term is neither a search result nor len(rest) - len(end)"
+					}
+				}
+				// "the region runs to the end of the data" is only right when no more data can come: while the input
+				// is still open the end mark may simply not have arrived yet
+				for _, vc := range core.ValueCases(t, r.Block()) {
+					if bo, isB := core.StripConv(vc.Val).(*ssa.BinOp); isB && bo.Op == token.SUB {
+						atEnd := false
+						for _, a := range vc.Atoms {
+							if a.LV == ssa.Value(atEOF) && a.Op == "is" {
+								atEnd = true
+							}
+						}
+						if !atEnd {
+							extraOK = false
+							extraWhy = "a region without its end mark is closed at the end of the buffered data although more input can follow (not under atEOF)"
 						}
 					}
-					if !atEnd {
-						extraOK = false
-						extraWhy = "a region without its end mark is closed at the end of the buffered data although more input can follow (not under atEOF)"
-					}
 				}
 			}
-		}
-		R.Check(extraOK, "C17.token", key+"|advance-at-eof", P.InstrPos(r),
-			"without an end mark at the end of input the region runs to the end: extra = len(rest) - len(end)",
-			extraWhy+": a final line comment without newline is consumed one byte short or long, so a byte of it reaches the decoder or the document's last byte is lost", nil)
-		R.Check(formula, "C17.token", key+"|advance", P.InstrPos(r),
-			"consumed length = pos + len(start) + extra + len(end)",
-			"the consumed length is not pos + len(start) + extra + len(end) (terms: "+strings.Join(names, " + ")+"): part of a region would be emitted twice or skipped", nil)
-		// which token under which flag
-		isComment, found := false, false
-		for _, g := range core.Guards(r.Block()) {
-			a, _ := core.AtomOf(g)
-			if a.L == "isComments[*]" {
-				found = true
-				isComment = a.Op == "is"
+			R.Check(extraOK, "C17.token", key+"|advance-at-eof", P.InstrPos(r),
+				"without an end mark at the end of input the region runs to the end: extra = len(rest) - len(end)",
+				extraWhy+": a final line comment without newline is consumed one byte short or long, so a byte of it reaches the decoder or the document's last byte is lost", nil)
+			R.Check(formula, "C17.token", key+"|advance", P.InstrPos(r),
+				"consumed length = pos + len(start) + extra + len(end)",
+				"the consumed length is not pos + len(start) + extra + len(end) (terms: "+strings.Join(names, " + ")+"): part of a region would be emitted twice or skipped", nil)
+			// which token under which flag
+			isComment, found := false, false
+			for _, a := range caseAtoms {
+				if a.L == "isComments[*]" {
+					found = true
+					isComment = a.Op == "is"
+				}
 			}
-		}
-		if !found {
-			R.Fail("C17.token", key+"|token", P.InstrPos(r), "the emitted token does not depend on the region being a comment", nil)
-			continue
-		}
-		if isComment {
-			R.Check(sl.High == pos, "C17.token", key+"|comment-dropped", P.InstrPos(r),
-				"a comment region is dropped whole: the token is data[:pos]", "for a comment region the token is not data[:pos]: comment bytes would reach the JSON decoder or real bytes would be lost", nil)
-		} else {
-			R.Check(sl.High == adv, "C17.token", key+"|text-passed", P.InstrPos(r),
-				"a non-comment region is passed whole: the token is data[:advance]", "for a quoted region the token is not data[:advance]: part of a string literal would be lost", nil)
+			if !found {
+				R.Fail("C17.token", key+"|token", P.InstrPos(r), "the emitted token does not depend on the region being a comment", nil)
+				continue
+			}
+			if isComment {
+				R.Check(sl.High == pos, "C17.token", key+"|comment-dropped", P.InstrPos(r),
+					"a comment region is dropped whole: the token is data[:pos]", "for a comment region the token is not data[:pos]: comment bytes would reach the JSON decoder or real bytes would be lost", nil)
+			} else {
+				R.Check(sl.High == adv, "C17.token", key+"|text-passed", P.InstrPos(r),
+					"a non-comment region is passed whole: the token is data[:advance]", "for a quoted region the token is not data[:advance]: part of a string literal would be lost", nil)
+			}
 		}
 	}
 	// the end marker is searched in the bytes after the start marker
